@@ -83,3 +83,32 @@ def mutate(rng, text):
 EXTRA += [" ", "€", "→", "“", "”", "🎸", "　", " ", "\x0b", "\x85", "日", "ß", "ǅ"]
 WORDS += ["a'rE", "boys'Re", "€", "€5", "x€", "→", "“hello”", "🎸", " ", "　", " ", " ", " ", "日本語",
           "\"Crüe\nüü\" loud", "(c\n日本 🎸)'s x", "\"one\ntwo\"'s up", "(a\nb)'re rocking, now", "\"a\nb\"'s \"x\"\nSay\n"]
+
+
+def keyword_aliases():
+    """Every word that either table knows: the model's (coq/Front/Token.v) and the implementation's
+    (every string literal of /repo/src/frontend/lexer.rs — a superset of its KEYWORDS table, so an alias
+    added on either side is lexed by both and shows up as a LEX disagreement)."""
+    words = set()
+    try:
+        tv = open("/verif/coq/Front/Token.v", encoding="utf-8").read()
+        blk = tv[tv.index("Definition keywords"):tv.index("Local Close Scope string_scope")]
+        words |= set(re.findall(r'"([^"]+)"', blk))
+    except Exception:
+        pass
+    try:
+        rs = open("/repo/src/frontend/lexer.rs", encoding="utf-8").read()
+        code = re.split(r"\n(?:pub )?mod tests? *\{", rs)[0]
+        words |= {w for w in re.findall(r'"((?:[^"\\]|\\.)*)"', code) if 0 < len(w) < 24 and "\\" not in w and " " not in w}
+    except Exception:
+        pass
+    return sorted(words)
+
+
+def keyword_texts():
+    out = []
+    for w in keyword_aliases():
+        forms = {w, w.upper(), w.capitalize(), w[:1] + w[1:].upper()}
+        for f in sorted(forms):
+            out += [f, f"x {f} y\n", f"{f}'s", f"{f}1", f"{f}, {f}"]
+    return out
